@@ -1,10 +1,10 @@
 //! C04 — routing: first matching host, then first matching route there, else the default
 //! application's first matching route, else 404; WebSocket upgrades by the same rule over the
 //! WebSocket routes. Exhaustive over bounded configurations x requests (DESIGN.md §3 C04).
+//! Family, reference and judge live in c04_gen.rs (shared with the tokio runner).
 
-use crate::props::c01::read_responses;
-use crate::props::c05::glob_ref;
-use crate::report::{show, Ctx, Stats};
+pub use crate::props::c04_gen::*;
+use crate::report::{Ctx, Stats};
 use humphrey::http::{Request, Response, StatusCode};
 use humphrey::stream::Stream;
 use humphrey::verif::net::{ScriptSock, Step, TcpStream};
@@ -13,14 +13,6 @@ use rayon::prelude::*;
 use serde_json::json;
 use std::io::Write;
 use std::sync::Arc;
-
-#[derive(Clone, Debug)]
-pub struct Cfg {
-    /// (host pattern, http routes, websocket routes)
-    pub hosts: Vec<(String, Vec<String>, Vec<String>)>,
-    pub default_routes: Vec<String>,
-    pub default_ws: Vec<String>,
-}
 
 fn subapp(tag: String, routes: &[String], ws: &[String]) -> SubApp<()> {
     let mut s: SubApp<()> = SubApp::new();
@@ -46,167 +38,30 @@ pub fn build(cfg: &Cfg) -> App<()> {
     app
 }
 
-fn matches(p: &str, t: &str) -> bool {
-    glob_ref(&p.chars().collect::<Vec<_>>(), &t.chars().collect::<Vec<_>>())
-}
-
-/// reference router: Some(handler id) or None (404 / closed)
-pub fn reference(cfg: &Cfg, host: Option<&str>, path: &str, ws: bool) -> Option<String> {
-    if let Some(h) = host {
-        if let Some((i, (_, routes, wsr))) = cfg.hosts.iter().enumerate().find(|(_, (hp, _, _))| matches(hp, h)) {
-            let list = if ws { wsr } else { routes };
-            if let Some(j) = list.iter().position(|r| matches(r, path)) {
-                return Some(format!("h{}{}{}", i, if ws { "w" } else { "r" }, j));
-            }
-        }
-    }
-    let list = if ws { &cfg.default_ws } else { &cfg.default_routes };
-    list.iter().position(|r| matches(r, path)).map(|j| format!("d{}{}", if ws { "w" } else { "r" }, j))
-}
-
-pub const HOSTS_REQ: [Option<&str>; 8] = [None, Some("x.test"), Some("y.test"), Some("x.test:80"), Some("other"), Some("x.y"), Some("x.test.test"), Some("x.x.test")];
-// targets include repeats of the literal tails of the patterns (`*b` vs `/b/b`, `/*/b` vs `/x/b/b`): a matcher
-// that does not retry its last wildcard fails exactly there
-pub const TARGETS: [(&str, &str); 12] = [("/", "/"), ("/a", "/a"), ("/ab", "/ab"), ("/a/b", "/a/b"), ("/b", "/b"), ("/a?q", "/a"), ("/a/b?x=/b", "/a/b"), ("/x/b?/a", "/x/b"), ("/b/b", "/b/b"), ("/x/b/b", "/x/b/b"), ("/ab/ab", "/ab/ab"), ("/a/a", "/a/a")];
-
-fn check_cfg(s: &mut Stats, cfg: &Cfg, with_ws: bool) {
+fn check_cfg(s: &mut Stats, cfg: &Cfg, cases: &[Case]) {
     let parts = build(cfg).verif_into_parts();
     s.states += 1;
     if !cfg.hosts.is_empty() {
         s.nontrivial += 1;
     }
-    for host in HOSTS_REQ {
-        for (target, path) in TARGETS {
-            for ws in [false, true] {
-                if ws && !with_ws {
-                    continue;
-                }
-                for extra in ["", "X-Route: /a\r\nX-Host: x.test\r\n"] {
-                    if !extra.is_empty() && !(target == "/ab" || target == "/a?q") {
-                        continue;
-                    }
-                    s.evaluations += 1;
-                    s.transitions += 1;
-                    let mut req = format!("GET {} HTTP/1.1\r\n", target);
-                    if let Some(h) = host {
-                        req.push_str(&format!("Host: {}\r\n", h));
-                    }
-                    req.push_str(extra);
-                    if ws {
-                        req.push_str("Upgrade: websocket\r\nConnection: Upgrade\r\n");
-                    } else {
-                        req.push_str("Connection: close\r\n");
-                    }
-                    req.push_str("\r\n");
-                    let sock = ScriptSock::new("127.0.0.1:9".parse().unwrap(), vec![Step::Seg(req.clone().into_bytes()), Step::Eof]);
-                    let s2 = sock.clone();
-                    let r = std::panic::catch_unwind(std::panic::AssertUnwindSafe(|| parts.serve(Stream::Tcp(TcpStream::Script(s2)))));
-                    let out = sock.lock().unwrap().out.clone();
-                    let want = reference(cfg, host, path, ws);
-                    let ctx = |what: String| json!({"what": what, "hosts": format!("{:?}", cfg.hosts), "default_routes": cfg.default_routes, "default_ws": cfg.default_ws, "request_host": host, "target": target, "websocket": ws, "server_wrote": show(&out[..out.len().min(200)]), "expected_handler": want});
-                    if r.is_err() {
-                        s.violation("routing panicked", || ctx("panic".into()));
-                        continue;
-                    }
-                    let got: Option<String> = if ws {
-                        if out.is_empty() { None } else { Some(String::from_utf8_lossy(&out).to_string()) }
-                    } else {
-                        match read_responses(&out) {
-                            Ok(g) if g.len() == 1 && g[0].status == 200 => Some(String::from_utf8_lossy(&g[0].body).to_string()),
-                            Ok(g) if g.len() == 1 && g[0].status == 404 => None,
-                            other => {
-                                s.violation("routed request did not produce exactly one 200/404 response", || ctx(format!("{:?}", other.map(|g| g.iter().map(|x| x.status).collect::<Vec<_>>()))));
-                                continue;
-                            }
-                        }
-                    };
-                    if got != want {
-                        let class = match (&got, &want) {
-                            (Some(g), Some(w)) if g.as_bytes()[0] != w.as_bytes()[0] || (g.starts_with('h') && g[..2] != w[..2]) => "request handled by the wrong host's application",
-                            (Some(_), Some(_)) => "request handled by a later route although an earlier one matches (or vice versa)",
-                            (None, Some(_)) => "no handler chosen although a registered route matches",
-                            (Some(_), None) => "a handler answered although no route matches",
-                            _ => "?",
-                        };
-                        s.violation(format!("{}: {}", if ws { "websocket" } else { "http" }, class), || ctx(format!("got {:?}", got)));
-                    } else {
-                        s.outcome(match &want { Some(w) if w.starts_with('h') => "host-route", Some(_) => "default-route", None => "no-route" });
-                    }
-                }
-            }
-        }
+    for c in cases {
+        let sock = ScriptSock::new("127.0.0.1:9".parse().unwrap(), vec![Step::Seg(c.bytes.clone()), Step::Eof]);
+        let s2 = sock.clone();
+        let r = std::panic::catch_unwind(std::panic::AssertUnwindSafe(|| parts.serve(Stream::Tcp(TcpStream::Script(s2)))));
+        let out = sock.lock().unwrap().out.clone();
+        judge(s, "", cfg, c, r.map(|_| out).map_err(|_| ()));
     }
-}
-
-fn seqs(menu: &[&str], max: usize) -> Vec<Vec<String>> {
-    let mut out: Vec<Vec<String>> = vec![vec![]];
-    let mut frontier = out.clone();
-    for _ in 0..max {
-        let mut next = vec![];
-        for f in &frontier {
-            for m in menu {
-                let mut n = f.clone();
-                n.push(m.to_string());
-                next.push(n);
-            }
-        }
-        out.extend(next.clone());
-        frontier = next;
-    }
-    out
 }
 
 pub fn run(mut cx: Ctx) -> ! {
-    cx.rule = "every application of the bounded configuration family (ordered host sub-apps x ordered route lists per sub-app x default routes, patterns with literals, prefixes, suffixes, infixes, `*`, adjacent `*`) is built through the public API and asked, through the real connection handler, for every request of Host {absent, exact, wildcard-matching, with port, non-matching} x 8 targets (with and without query, query containing other routes) x {plain, WebSocket upgrade}, also with decoy headers naming other routes; the answering handler's identity must be the reference router's choice; states = distinct applications, transitions = requests routed; non-trivial = applications with host sub-apps".into();
-    let quick = cx.quick();
-    let pats_small = ["/a", "/a*", "/*", "*b", "/*/b"];
-    let pats_full = ["/", "/a", "/a*", "/*", "*", "/a/*", "*b", "/*/b", "/**", "/a?q"];
-    let hosts = ["x.test", "*.test", "x.*", "x.test:80"];
-    let mut cfgs: Vec<(Cfg, bool)> = vec![];
-    // default application only: all route lists of length <= 2 (3) over the full pattern menu, plain and websocket
-    for l in seqs(&pats_full, if quick { 2 } else { 3 }) {
-        cfgs.push((Cfg { hosts: vec![], default_routes: l.clone(), default_ws: l.iter().rev().cloned().collect() }, true));
-    }
-    // one host: host x routes(<=2) x default routes(<=2)
-    let rl = seqs(&pats_small, 2);
-    for h in hosts {
-        for hr in &rl {
-            for dr in &rl {
-                cfgs.push((Cfg { hosts: vec![(h.to_string(), hr.clone(), hr.clone())], default_routes: dr.clone(), default_ws: dr.clone() }, hr.len() + dr.len() <= 2));
-            }
-        }
-    }
-    // two hosts (shadowing and overlap arise by construction): all ordered pairs of hosts x route lists
-    let rl2 = seqs(&pats_small, 2);
-    let dl2 = seqs(&pats_small, if quick { 1 } else { 2 });
-    for h1 in hosts {
-        for h2 in hosts {
-            for r1 in &rl2 {
-                for r2 in &rl2 {
-                    for d in &dl2 {
-                        cfgs.push((Cfg { hosts: vec![(h1.to_string(), r1.clone(), r1.clone()), (h2.to_string(), r2.clone(), r2.clone())], default_routes: d.clone(), default_ws: d.clone() }, false));
-                    }
-                }
-            }
-        }
-    }
-    if !quick {
-        // three hosts with single-route lists
-        for h1 in hosts {
-            for h2 in hosts {
-                for h3 in hosts {
-                    for r in &seqs(&pats_small, 1) {
-                        cfgs.push((Cfg { hosts: vec![(h1.into(), r.clone(), vec![]), (h2.into(), vec!["/*".into()], vec![]), (h3.into(), r.clone(), vec![])], default_routes: vec!["/a".into()], default_ws: vec![] }, false));
-                    }
-                }
-            }
-        }
-    }
+    cx.rule = "every application of the bounded configuration family (ordered host sub-apps x ordered route lists per sub-app x default routes, patterns with literals, prefixes, suffixes, infixes, `*`, adjacent `*`) is built through the public API and asked, through the real connection handler, for every request of Host {absent, exact, wildcard-matching, with port, non-matching} x 12 targets (with and without query, query containing other routes) x {plain, WebSocket upgrade}, also with decoy headers naming other routes; the answering handler's identity must be the reference router's choice; the same applications and requests run through the tokio App's connection handler; states = distinct applications, transitions = requests routed; non-trivial = applications with host sub-apps".into();
+    let cfgs = family(cx.quick());
     cx.bound("applications", cfgs.len());
+    let (with, without) = (cases(true), cases(false));
     let part = cfgs
         .par_iter()
         .fold(Stats::default, |mut s, (c, ws)| {
-            check_cfg(&mut s, c, *ws);
+            check_cfg(&mut s, c, if *ws { &with } else { &without });
             if s.states % 500 == 1 {
                 s.sample(|| json!({"hosts": format!("{:?}", c.hosts), "default_routes": c.default_routes}));
             }
@@ -217,6 +72,7 @@ pub fn run(mut cx: Ctx) -> ! {
             a
         });
     cx.stats.merge(part);
-    cx.assume("threaded runtime; host patterns are matched against the raw Host header value (a port is part of it)");
+    crate::tokio_twin::merge(&mut cx, "C04");
+    cx.assume("host patterns are matched against the raw Host header value (a port is part of it)");
     cx.finish()
 }
